@@ -128,7 +128,9 @@ def check_cldice(ctx: Ctx):
         check_rational(ctx, "R06.4", f, runs, want, f"clDice(ndim={ndim})", construct_prefix=f"{f.qual}:ndim={ndim}")
         for out, it in runs:
             names = sorted({c[0].split(".")[-1] for c in it.root.skeleton_calls})
-            ctx.decide("R06.4", f, f.node, f"{f.qual}:ndim={ndim}:skeleton", f"{ndim}-D input uses {fn} on both masks", names == [fn] and len(it.root.skeleton_calls) == 2, {"calls": names}, nontrivial=False)
+            # skeletonize(image) without a method dispatches on the dimensionality itself: for 3-D input it is skeletonize_3d
+            accepted = [[fn]] + ([["skeletonize"]] if ndim == 3 else [])
+            ctx.decide("R06.4", f, f.node, f"{f.qual}:ndim={ndim}:skeleton", f"{ndim}-D input uses {fn} on both masks", names in accepted and len(it.root.skeleton_calls) == 2, {"calls": names}, nontrivial=False)
     # other dimensionalities are rejected, not silently computed
     runs = run_kernel(prog, f, _bind_masks(f, X, Y), ndim=1)
     for out, it in runs:
